@@ -50,3 +50,17 @@ func init() {
 		},
 	}
 }
+
+func init() {
+	cfgs["C12"] = &propCfg{
+		Workers: map[string]int{"pristine": 7, "instr": 5, "pristine-race": 2, "instr-race": 2},
+		QuickS:  35, ThorS: 600,
+		Real: []string{"Server (TCP on a simulated listener + UDP on a simulated PacketConn, same handler)", "serveTCPConn/readTCP, serveUDP/readPacketConn/serveUDPPacket, serveDNS, udpPool", "response.WriteMsg/Write", "Client.ExchangeWithConn / ExchangeWithConnContext", "Conn.WriteMsg / Write / ReadMsg / ReadMsgHeader / Read", "Msg.Pack/Unpack"},
+		Stub: stubCommon,
+		Rule: "A run is either an 'exchange' scenario (1..8 concurrent clients over udp or tcp, 1..6 exchanges each on a reused connection, request and reply sizes from the boundary set {min,40,100,511..513,1231..1233,4095..4097,16383..16385,65534,65535}, handler variants normal/slow/wrong-ID/twice/silent/oversize/wrong-then-right, forged foreign-ID datagrams, drop/dup/delay, segmentation, short reads) or a 'framing' scenario (one writer using WriteMsg or Write, one reader using ReadMsg, ReadMsgHeader or Read, 1..5 messages incl. >65535, stream cut by EOF or RST at any octet, small receive windows), each under one seeded schedule. Non-trivial = at least one exchange or message was attempted. Distinct = distinct trace digest per build.",
+		Assume: append([]string{
+			"the harness's own Unpack of the octets that crossed the simulated wire is the reference for 'the request the client sent' / 'the reply the handler wrote' (trusts that decoding is a function of the octets, which is what cross-talk and aliasing would break; decoder correctness itself is C01)",
+			"receive buffers are poisoned only after every delivered copy of a request has reached its handler and no later read has been issued into the same backing array",
+		}, stubCommon...),
+	}
+}
